@@ -155,7 +155,13 @@ def run_dedupe(exe, data, backing, tmp, args=()):
     """run the real binary with `data` on stdin supplied through the given backing"""
     if backing == "pipe":
         return run_tool([exe] + list(args), stdin=data, timeout=120)
-    raw = {"file": lambda d: d, "gz": gzip.compress, "bz2": bz2.compress, "xz": lzma.compress}[backing](data)
+    if backing.endswith("-members"):
+        # several concatenated compressed members, with EMPTY members at the start, in the middle and at the end
+        comp = {"gz": gzip.compress, "bz2": bz2.compress, "xz": lzma.compress}[backing.split("-")[0]]
+        cut = data.rfind(b"\n", 0, len(data) // 2) + 1
+        raw = comp(b"") + comp(data[:cut]) + comp(b"") + comp(b"") + comp(data[cut:]) + comp(b"")
+    else:
+        raw = {"file": lambda d: d, "gz": gzip.compress, "bz2": bz2.compress, "xz": lzma.compress}[backing](data)
     path = os.path.join(tmp, "in." + backing)
     with open(path, "wb") as f:
         f.write(raw)
@@ -215,6 +221,12 @@ def main(argv):
             spec, delim, data = gen_fielded(rng, ragged)
             args = ["-f", spec, "-d", delim.decode()] if delim != b"\t" or rng.random() < 0.5 else ["-f", spec]
             cases.append(("fields%s -f %s" % ("-ragged" if ragged else "", spec), data, BACKINGS[i % 5], args, cut_key(spec, delim), (spec, delim.hex())))
+        # compressed inputs made of several members, empty members in between (gz / bz2 / xz)
+        for i in range(max(9, reps // 4)):
+            kind = kinds[i % 4]
+            cases.append((kind + "/multi-member", gen_stream(rng, kind), ["gz-members", "bz2-members", "xz-members"][i % 3], [], None, ("-", "09")))
+        for b in ("gz-members", "bz2-members", "xz-members"):
+            cases.append(("boundary/multi-member", b"a\nb\na\nc\n", b, [], None, ("-", "09")))
         # boundary streams
         z16 = hash0_line(rng)
         fixed = [b"", b"\n", b"\n\n", b"a", b"a\n", b"a\na", b"a\r\na\n", b"a\n\na\n\n", b"\x00\n\x00\n", b"a\rb\na\rb\n",
